@@ -140,6 +140,7 @@ impl SharedTaskRunner {
 
         #[cfg(feature = "verif")]
         if crate::verif::inline_tasks() {
+            let _worker = crate::verif::inline_worker();
             let ctx = TaskContext::new(self.inner.pager.clone(), self.inner.coordinator.clone());
             return task(&ctx).map_err(|e| TaskError::TaskFailed(e.to_string()));
         }
@@ -201,6 +202,7 @@ impl SharedTaskRunner {
 
         #[cfg(feature = "verif")]
         if crate::verif::inline_tasks() {
+            let _worker = crate::verif::inline_worker();
             let ctx = TaskContext::new(self.inner.pager.clone(), self.inner.coordinator.clone());
             return task(&ctx).map_err(|e| TaskError::TaskFailed(e.to_string()));
         }
